@@ -111,6 +111,14 @@ func BuildGraph(p *core.Program) *Graph {
 					callee := com.StaticCallee()
 					if callee != nil {
 						add(fn, callee, in)
+						// gnark-lean-extractor: abstractor.Call*(api, gadget) invokes gadget.DefineGadget(api)
+						if callee.Pkg != nil && strings.HasSuffix(callee.Pkg.Pkg.Path(), "gnark-lean-extractor/v2/abstractor") && strings.HasPrefix(callee.Name(), "Call") {
+							for _, a := range com.Args {
+								if mi, ok := a.(*ssa.MakeInterface); ok {
+									add(fn, methodOf(mi.X.Type(), "DefineGadget"), in)
+								}
+							}
+						}
 						// reflection callbacks of encoding/json
 						if callee.Pkg != nil && callee.Pkg.Pkg.Path() == "encoding/json" {
 							cb := ""
@@ -223,12 +231,34 @@ type Shared struct {
 	ref map[ssa.Value]string // value -> why (root description)
 	// holds: a local allocation whose content includes shared references
 	holds map[ssa.Value]string
-	fns   map[*ssa.Function]bool
+	// fields: (struct type, field index) whose content is a shared reference in some value of that type
+	// (field-sensitive: a struct carrying one shared slice does not make its other fields shared)
+	fields map[string]string
+	fns    map[*ssa.Function]bool
+}
+
+func fieldKey(t types.Type, i int) string {
+	if p, ok := types.Unalias(t).(*types.Pointer); ok {
+		t = p.Elem()
+	}
+	return types.TypeString(t, nil) + "#" + strconvItoa(i)
+}
+
+func strconvItoa(i int) string {
+	if i == 0 {
+		return "0"
+	}
+	var b []byte
+	for i > 0 {
+		b = append([]byte{byte('0' + i%10)}, b...)
+		i /= 10
+	}
+	return string(b)
 }
 
 // Analyse runs the propagation over the given functions. seeds are values known to reference shared memory.
 func Analyse(g *Graph, fns map[*ssa.Function]*ssa.Function, seeds map[ssa.Value]string, globalsShared func(*ssa.Global) bool) *Shared {
-	s := &Shared{G: g, ref: map[ssa.Value]string{}, holds: map[ssa.Value]string{}, fns: map[*ssa.Function]bool{}}
+	s := &Shared{G: g, ref: map[ssa.Value]string{}, holds: map[ssa.Value]string{}, fields: map[string]string{}, fns: map[*ssa.Function]bool{}}
 	for f := range fns {
 		s.fns[f] = true
 	}
@@ -288,6 +318,9 @@ func Analyse(g *Graph, fns map[*ssa.Function]*ssa.Function, seeds map[ssa.Value]
 						if w, ok := s.ref[x.X]; ok && pointerLike(x.Type()) {
 							mark(x, w)
 						}
+						if w, ok := s.fields[fieldKey(x.X.Type(), x.Field)]; ok && pointerLike(x.Type()) {
+							mark(x, w)
+						}
 					case *ssa.Index:
 						if w, ok := s.ref[x.X]; ok && pointerLike(x.Type()) {
 							mark(x, w)
@@ -307,6 +340,11 @@ func Analyse(g *Graph, fns map[*ssa.Function]*ssa.Function, seeds map[ssa.Value]
 							}
 							if ra := rootAlloc(x.X); ra != nil {
 								if w, ok := s.holds[ra]; ok && pointerLike(x.Type()) {
+									mark(x, w)
+								}
+							}
+							if fa, ok := x.X.(*ssa.FieldAddr); ok && pointerLike(x.Type()) {
+								if w, ok := s.fields[fieldKey(fa.X.Type(), fa.Field)]; ok {
 									mark(x, w)
 								}
 							}
@@ -357,7 +395,14 @@ func Analyse(g *Graph, fns map[*ssa.Function]*ssa.Function, seeds map[ssa.Value]
 						}
 					case *ssa.Store:
 						if w, ok := s.ref[x.Val]; ok {
-							if ra := rootAlloc(x.Addr); ra != nil {
+							if fa, isField := x.Addr.(*ssa.FieldAddr); isField {
+								// field-sensitive: only this field of this struct type carries the shared reference
+								k := fieldKey(fa.X.Type(), fa.Field)
+								if _, ok := s.fields[k]; !ok {
+									s.fields[k] = w
+									changed = true
+								}
+							} else if ra := rootAlloc(x.Addr); ra != nil {
 								hold(ra, w)
 							}
 						}
